@@ -21,7 +21,7 @@ from collections import OrderedDict
 import pyworkers.remote_pickle as rp
 
 from . import pk
-from ..rt import Outcome, ev
+from ..rt import Outcome, ev, notrace
 from ..xh import Harness
 from ..main import PropSpec
 
@@ -60,13 +60,18 @@ def _build_chain(marker, levels, gna, slots):
 
 
 def h_chain(marker, g0, s0, r0, g1, s1, r1, g2, s2, r2, gna, slots, remote, proto):
+    with notrace():      # symbolic ints are only touched by rt.conc(); everything else is concrete
+        return _h_chain(marker, g0, s0, r0, g1, s1, r1, g2, s2, r2, gna, slots, remote, proto)
+
+
+def _h_chain(marker, g0, s0, r0, g1, s1, r1, g2, s2, r2, gna, slots, remote, proto):
     snap = pk.snapshot()
     try:
         levels = [(g0, s0, r0), (g1, s1, r1), (g2, s2, r2)]
         # concretise the symbolic feature flags by branching (classes need concrete features)
         levels = [(_c(g, 4), _c(s, 2), _c(r, 3)) for (g, s, r) in levels]
         marker, gna, slots, remote = _c(marker, 2), _c(gna, 2), _c(slots, 2), _c(remote, 2)
-        proto = 2 + _c(proto - 2, 4)
+        proto = max(2, _c(proto, 6))
         ev("chain", marker, str(levels), gna, slots, remote, proto)
         cls, status = _build_chain(marker, levels, gna, slots)
         if status == "warned-expected":
@@ -80,12 +85,7 @@ def h_chain(marker, g0, s0, r0, g1, s1, r1, g2, s2, r2, gna, slots, remote, prot
         pk.restore(snap)
 
 
-def _c(v, n):
-    """Concretise a symbolic int in range(n) by branching."""
-    for i in range(n):
-        if v == i:
-            return i
-    return 0
+from ..rt import conc as _c
 
 
 def _differential(g, insts, opt_in, inconsistent, marker, remote, proto, label):
@@ -156,10 +156,15 @@ def _graph(shape, x, y):
 
 
 def h_shape(cfg, shape, remote, proto):
+    with notrace():      # symbolic ints are only touched by rt.conc(); everything else is concrete
+        return _h_shape(cfg, shape, remote, proto)
+
+
+def _h_shape(cfg, shape, remote, proto):
     snap = pk.snapshot()
     try:
         cfg, shape, remote = _c(cfg, len(CLASS_MENU)), _c(shape, 8), _c(remote, 2)
-        proto = 2 + _c(proto - 2, 4)
+        proto = max(2, _c(proto, 6))
         ev("shape", cfg, shape, remote, proto)
         marker, levels = CLASS_MENU[cfg]
         cls, status = _build_chain(marker, levels, 0, 0)
@@ -249,11 +254,16 @@ def _same(a, b):
 
 
 def h_stdlib(item, wrap, remote, proto):
+    with notrace():      # symbolic ints are only touched by rt.conc(); everything else is concrete
+        return _h_stdlib(item, wrap, remote, proto)
+
+
+def _h_stdlib(item, wrap, remote, proto):
     snap = pk.snapshot()
     try:
         menu = _menu()
         item, wrap, remote = _c(item, len(menu)), _c(wrap, 2), _c(remote, 2)
-        proto = 2 + _c(proto - 2, 4)
+        proto = max(2, _c(proto, 6))
         name, v = menu[item]
         ev("stdlib", name, wrap, remote, proto)
         g = v if not wrap else [v, {"k": v}]
